@@ -172,6 +172,10 @@ def with_order(base):
 
 def run_cases(ctx, name, cases, check, minimise=True):
     """Shared by the compile-based checks: run cases on 16 threads, bucket failures by signature."""
+    from vf.runner import short
+    for case in cases[:2]:  # written-out (model, configuration) cases for the evidence
+        if isinstance(case, dict) and 'sm' in case:
+            ctx.samples.insert(0, short({k: v for k, v in case.items() if k != 'histories'}, 4000))
     work = tempfile.mkdtemp(prefix=f'vf_{ctx.prop.lower()}_')
     results = []
     try:
